@@ -513,6 +513,28 @@ def probes() -> List[Tuple[str, Dict[str, Any]]]:
         if n["hostname"] == "router_1":
             n["default_route"] = {"next_hop_ip_address": "192.168.1.2"}
     out.append(("probe/wireless_router_default_route", c))
+    # primary / backup routes: several routes to ONE destination (same address and mask, different next hop and metric),
+    # in both orders, on every node type that has a route table
+    for order in (0, 1):
+        rts = [{"address": "10.9.0.0", "subnet_mask": "255.255.0.0", "next_hop_ip_address": "192.168.2.2", "metric": 10},
+               {"address": "10.9.0.0", "subnet_mask": "255.255.0.0", "next_hop_ip_address": "192.168.1.2", "metric": 1},
+               {"address": "10.9.1.0", "subnet_mask": "255.255.255.0", "next_hop_ip_address": "192.168.2.2", "metric": 0}]
+        rts = rts if order == 0 else rts[::-1]
+        c = base()
+        for n in c["simulation"]["network"]["nodes"]:
+            if n["hostname"] == "r":
+                n["routes"] = copy.deepcopy(rts)
+        out.append((f"probe/routes_same_destination_router_order{order}", c))
+        c = scenarios.firewalled(dmz=True)
+        for n in c["simulation"]["network"]["nodes"]:
+            if n["hostname"] == "fw":
+                n["routes"] = [dict(r, next_hop_ip_address=r["next_hop_ip_address"].replace("192.168.2.2", "192.168.20.2")) for r in rts]
+        out.append((f"probe/routes_same_destination_firewall_order{order}", c))
+        c = scenarios.test_asset("wireless_wan_network_config.yaml")
+        for n in c["simulation"]["network"]["nodes"]:
+            if n["hostname"] == "router_1":
+                n["routes"] = [dict(r, next_hop_ip_address="192.168.1.2" if r["metric"] == 1 else "192.168.0.2") for r in rts]
+        out.append((f"probe/routes_same_destination_wireless_router_order{order}", c))
     # (two forms that only the DOCUMENTATION describes - a node-level ``file_system:`` key and a database-service
     # ``password`` option - are rejected by the loader's schema with a ValidationError: they are not well-formed
     # scenario files for this code base, so they are outside the statement's quantifier; they were tried once and are
